@@ -8,7 +8,7 @@
    where the encoder excludes them. *)
 From Coq Require Import ZArith List Bool.
 From ADV Require Import C18.Model C18.Spec C18.SpecTest C18.ProofsBase C18.ProofsScalar C18.ProofsSparse
-  C18.ProofsDense C18.ProofsSparseMat C18.ProofsInst.
+  C18.ProofsDense C18.ProofsSparseMat C18.ProofsInst C18.TableModel C18.ProofsTable.
 Import ListNotations.
 Open Scope Z_scope.
 
@@ -200,4 +200,139 @@ Proof.
   split. { unfold wf_real; simpl. repeat split; try discriminate; repeat constructor. }
   split. { intros [H _]. vm_compute in H. discriminate. }
   unfold wf_sv, sorted, keys; simpl. split; [discriminate|]. split; repeat constructor; simpl; discriminate || reflexivity.
+Qed.
+
+(* ================================================================== TABLES (text files, round 2)
+   F : stored element values, T : tokens of the file.  fmtT = fmt's %v of the element's value,
+   parseT = strconv.ParseFloat followed by the conversion to the stored type, fmtI / parseI = %d /
+   ParseInt.  The byte layer (lines, strings.Fields, gzip) is outside the model; a written file enters
+   the theorems as its lines plus its first bytes p with [text_prefix p] (not empty, not the gzip magic).
+   Tables carry VALUES ONLY: derivatives of Real elements are not written (eval projects them away),
+   so the round-trip theorems speak about dimensions and element values. *)
+
+Theorem gzip_detection :
+  is_gzip [] = Err /\ (forall b, is_gzip [b] = Ok false) /\
+  (forall a b r, is_gzip (a :: b :: r) = Ok ((a =? 31) && (b =? 139))) /\
+  (forall p, text_prefix p -> is_gzip p = Ok false).
+Proof. exact (conj is_gzip_empty (conj is_gzip_one (conj is_gzip_two is_gzip_text))). Qed.
+
+(* dense vectors of every length, the empty vector included *)
+Theorem dense_vector_table_roundtrip :
+  forall F T (fmtT : F -> T) parseT E (eval : E -> F) (v : list E) p,
+  text_prefix p -> Forall (cell_ok F T fmtT parseT E eval) v ->
+  import_dv F T parseT (plain_file p (export_dv F T fmtT E eval v)) = Ok (map eval v).
+Proof. exact dv_table_roundtrip. Qed.
+
+(* the dense vector reader on ANY file: accepted iff the stream ends cleanly and every token is a value;
+   the result is the list of all tokens' values (line structure is ignored) *)
+Theorem dense_vector_table_reader :
+  forall F T (parseT : T -> option F) f v, import_dv F T parseT f = Ok v ->
+  exists s, open_table f = Ok s /\ ts_fail s = false /\ mapM parseT (all_fields T (ts_lines s)) = Some v.
+Proof. exact import_dv_reads_all_tokens. Qed.
+
+(* dense matrices, every non-empty view (any wf_dm header: slices, transposes and their compositions,
+   see dense_views_are_wf): dimensions preserved, stored values = the view's elements row by row.
+   PARTIAL: the final positional reading  dm_at m' i j = eval (dm_at m i j)  of that row-major list is
+   not stated (it needs the index lemma  nth (i*cols+j) (concat rows) = nth j (nth i rows)). *)
+Theorem dense_matrix_table_roundtrip_partial :
+  forall F T (fmtT : F -> T) parseT E (eval : E -> F) (m : dmat E) ls p real,
+  text_prefix p -> wf_dm m -> 0 < dm_rows m -> 0 < dm_cols m ->
+  Forall (cell_ok F T fmtT parseT E eval) (dm_vals m) ->
+  export_dm F T fmtT E eval m = Ok ls ->
+  exists rowsE, view_rows E m rowsE /\
+    import_dm F T parseT real (plain_file p ls) =
+    Ok (mkDm (map eval (concat rowsE)) (dm_rows m) (dm_cols m) 0 (dm_rows m) 0 (dm_cols m) false).
+Proof. exact dm_table_roundtrip_rows. Qed.
+
+(* empty shapes (0x0, 0xn, nx0 — also as empty views) are written as empty lines and read back as 0x0:
+   the round trip holds for 0x0 only *)
+Theorem dense_matrix_table_empty_shapes :
+  forall F T (fmtT : F -> T) parseT E (eval : E -> F) (m : dmat E) p real,
+  text_prefix p -> 0 <= dm_rows m -> (dm_rows m = 0 \/ dm_cols m <= 0) ->
+  exists ls, export_dm F T fmtT E eval m = Ok ls /\
+    import_dm F T parseT real (plain_file p ls) = Ok (mkDm [] 0 0 0 0 0 0 false).
+Proof. exact dm_table_empty. Qed.
+
+Theorem dense_matrix_table_emptydim_refuted :
+  ZEdm (mkDm [] 0 3 0 0 0 3 false) = Ok [LEmpty] /\
+  ZEdm (mkDm [] 3 0 0 3 0 0 false) = Ok [LEmpty; LEmpty; LEmpty] /\
+  ZIdm false (plain_file [10] [LEmpty]) = Ok (mkDm [] 0 0 0 0 0 0 false) /\
+  ZIdm false (plain_file [10; 10] [LEmpty; LEmpty; LEmpty]) = Ok (mkDm [] 0 0 0 0 0 0 false).
+Proof. exact dm_table_emptydim_refuted. Qed.
+
+(* reader safety, dense matrices: plain element types are safe exactly on streams without a
+   whitespace-only line; Real element types always (their constructor checks the length, or panics) *)
+Theorem dense_matrix_table_reader_safety :
+  forall F T (parseT : T -> option F),
+  (forall f m, import_dm F T parseT false f = Ok m ->
+     exists s, open_table f = Ok s /\ (no_ws_line T (ts_lines s) -> wf_dm m)) /\
+  (forall f m, import_dm F T parseT true f = Ok m -> wf_dm m).
+Proof. intros F T parseT. exact (conj (import_dm_plain_safe F T parseT) (import_dm_real_safe F T parseT)). Qed.
+
+Theorem dense_matrix_table_whitespace_line_refuted :
+  (exists m, ZIdm false (plain_file [32; 10] [LFields []; LFields [1; 2]]) = Ok m /\
+             dm_rows m = 2 /\ dm_cols m = 2 /\ zlen (dm_vals m) = 2 /\ ~ wf_dm m /\ dm_at Z m 1 0 = Panic) /\
+  ZIdm true (plain_file [32; 10] [LFields []; LFields [1; 2]]) = Panic /\
+  ZIdm true (plain_file [32; 10] [LFields []; LFields [5]]) = Ok (mkDm [5; 5] 2 1 0 2 0 1 false).
+Proof. exact dm_table_wsline_refuted. Qed.
+
+(* sparse vectors: on its own writer's output the table reader computes what the JSON reader computes
+   on the JSON document of the same vector — hence the round trip *)
+Theorem sparse_vector_table_roundtrip :
+  forall F T nz (fmtT : F -> T) parseT fmtI parseI E (eval : E -> F) enul,
+  (forall z, parseI (fmtI z) = Some z) -> forall zero, nz zero = false -> (forall x, parseT (fmtT x) = Some x) ->
+  (forall e, enul e = true -> nz (eval e) = false) ->
+  forall (v : svec E) p, text_prefix p -> wf_sv v ->
+  exists v', import_sv F T nz parseT parseI (plain_file p (export_sv F T fmtT fmtI E eval enul v)) = Ok v' /\
+             wf_sv v' /\ sv_obs_eq F zero nz E eval v v'.
+Proof. exact sv_table_roundtrip. Qed.
+
+Theorem sparse_vector_table_reader_refuted :
+  ZIsv (plain_file [49; 10] [LFields [1]; LFields [1; 1]]) = Panic /\
+  ZIsv (plain_file [49; 10] [LFields [1]; LFields [0; 1]; LFields [0; 1]]) = Panic /\
+  (exists v, ZIsv (plain_file [49; 10] [LFields [1]; LFields [-1; 1]]) = Ok v /\ ~ wf_sv v /\ lookup (-1) (sv_ents v) = Some 1) /\
+  (exists v, ZIsv (plain_file [45; 49] [LFields [-1]]) = Ok v /\ ~ wf_sv v).
+Proof. exact sv_table_reader_refuted. Qed.
+
+(* sparse matrices: no universally quantified round-trip theorem yet (model, exact correspondence and
+   the executable example sm_table_example only); what is refuted: *)
+Theorem sparse_matrix_table_slice_refuted :
+  ZEsm spslice_tab = Ok [LFields [2; 2]; LFields [-1; -1; 1]; LFields [1; 1; 2]] /\
+  ZIsm (plain_file [50; 32] [LFields [2; 2]; LFields [-1; -1; 1]; LFields [1; 1; 2]]) = Panic.
+Proof. exact sm_table_slice_refuted. Qed.
+
+Theorem sparse_matrix_table_reader_refuted :
+  ZIsm (plain_file [49; 32] [LFields [1; 1]; LFields [1; 0; 1]]) = Panic /\
+  (exists m, ZIsm (plain_file [45; 49] [LFields [-1; -1]]) = Ok m /\ sm_rows m = -1) /\
+  (exists m, ZIsm (plain_file [52; 50] [LFields [2 ^ 32; 2 ^ 32]]) = Ok m /\ sv_n (sm_vals m) = 0 /\ sm_rows m = 2 ^ 32).
+Proof. exact sm_table_reader_refuted. Qed.
+
+(* integer cells go through ParseFloat: exact below 2^53, wrong above *)
+Theorem int_table_cell_exact_below_2_53 :
+  forall bits z, (bits = 64 \/ 0 < bits <= 32) -> Z.abs z < 2 ^ 53 -> - 2 ^ (bits - 1) <= z < 2 ^ (bits - 1) ->
+  int_cell_parse bits z = Some z.
+Proof. exact int_cell_small. Qed.
+
+Theorem int_table_refuted :
+  ZIdv 64 (plain_file [57; 48] (ZEdv [2 ^ 53 + 1])) = Ok [2 ^ 53] /\
+  ZIdv 64 (plain_file [57; 50] (ZEdv [2 ^ 63 - 1])) = Ok [- 2 ^ 63] /\
+  ZIdv 8 (plain_file [51; 48] [LFields [300]]) = Ok [44].
+Proof. exact ProofsTable.int_table_refuted. Qed.
+
+Theorem table_small_files :
+  ZIdv 64 (mkTf [] (mkTs [] false) None) = Err /\
+  ZIdv 64 (plain_file [10] [LEmpty]) = Ok [] /\
+  ZIdv 64 (plain_file [10] (ZEdv [])) = Ok [] /\
+  ZIdv 64 (plain_file [53] [LFields [5]]) = Ok [5].
+Proof. exact ProofsTable.table_small_files. Qed.
+
+Example table_hypotheses_satisfiable :
+  text_prefix [49; 10] /\ text_prefix [10] /\
+  Forall (cell_ok Z Z (fun z => z) (int_cell_parse 64) Z (fun z => z)) [1; -5; 2 ^ 53 - 1] /\
+  (exists ls, ZEdm view1 = Ok ls /\ ZIdm false (plain_file [50; 32] ls) = Ok (mkDm [2;3;4; 6;7;8] 2 3 0 2 0 3 false)).
+Proof.
+  split. { split; [discriminate|]. intros r H. discriminate. }
+  split. { split; [discriminate|]. intros r H. discriminate. }
+  split. { repeat constructor. }
+  eexists. split; vm_compute; reflexivity.
 Qed.
